@@ -84,7 +84,7 @@ def validSpan (P : Params) : Bool := 0 < P.blockSize && 0 < P.directDiv
 def valid (P : Params) : Bool :=
   P.validSizes && P.validSimple && P.validContainer && P.validHeaders && P.validList && P.validMap &&
   P.validMinWire && P.validMinWireFixed && P.validSkip && P.validDepth && P.validBitset && P.validSpan &&
-  P.mapBinaryGuard
+  P.mapBinaryGuard && P.binarySeesThroughPtr
 
 end Params
 end Frugal
